@@ -3,10 +3,16 @@
     Path tags: kind 0 (vector ops) 1 + op; kind 1 (segments) 100 + 10 * tag of get_intersection_pt + 2 intersect + 1 touches;
     kind 2 (triangles, incl. Triangle3D::bounds -> [tri_bounds]) 200 + class of test_point, 210 + Err class, 299 panic;
     kind 3 (areas; op 6 = BBox3D::new + surface_area -> [box_area]) 300 + op. *)
-From G3 Require Import Run.Harness Model.Vec Model.BBox Model.Transform Model.Segment Model.Triangle Model.Areas.
+(** The runner text is written once, in a section over the number instance [NK : Num float]: module [C19] instantiates it on
+    [NumF] (the f64 build), module [C19f32] on [NumF32fast] (= [NumF32], Run/FastNum32Proof.v) for the build with
+    `--features float`; bit for bit in both builds.  (The float literals of this file -- 0, 1, 2, 3, 99 and the small integers
+    of [n2f] -- are markers of the output encoding, exactly representable in binary32; the model's arithmetic is the instance's.) *)
+From G3 Require Import Run.Harness Run.FastNum32 Model.Vec Model.BBox Model.Transform Model.Segment Model.Triangle Model.Areas.
 Local Open Scope float_scope.
 
 Definition K := float.
+Section WithInstance.
+Context {NK : Num float}.
 Definition fl (l : list spec_float) (i : nat) : K := SF2Prim (nthsf l i).
 Definition v_of (l : list spec_float) (o : nat) : V3 K := mkV3 (fl l o) (fl l (o+1)) (fl l (o+2)).
 Definition v_list (v : V3 K) : list K := [vx v; vy v; vz v].
@@ -97,6 +103,12 @@ Definition chk (c : N * N * list spec_float * list spec_float) : N :=
   | _ => if exact_eq (area_out op i) e then (300 + op) else 0
   end%N.
 
+End WithInstance.
+
 Module C19.
-  Definition run := run_cases chk.
+  Definition run := run_cases (@chk NumF).
 End C19.
+(** the f32 build: the same runner on the binary32 instance *)
+Module C19f32.
+  Definition run := run_cases (@chk NumF32fast).
+End C19f32.
